@@ -16,7 +16,9 @@ class FuncInfo(object):
     def __init__(self, module, cls, node, parent=None):
         self.module = module
         self.cls = cls
-        self.node = node
+        self.raw = node           # the function as written
+        self._inl = None          # the function with helpers inlined
+        self.inlined_callees = []
         self.name = node.name
         self.parent = parent
         if parent is not None:
@@ -26,6 +28,26 @@ class FuncInfo(object):
         else:
             self.qualname = node.name
         self._nested = None
+
+    @property
+    def node(self):
+        """The function definition the rules analyse: the source function
+        with private helpers that are not rule vocabulary inlined (see
+        sa/inline.py); the raw definition when inlining is off."""
+        index = getattr(self.module, 'index', None)
+        if index is None or not index.inlining:
+            return self.raw
+        if self._inl is None:
+            from . import inline
+            self._inl = self.raw      # guard against re-entrance
+            try:
+                node, names = inline.inline_function(
+                    index, self, index.resolve_call)
+                self._inl = node
+                self.inlined_callees = names
+            except RecursionError:
+                self._inl = self.raw
+        return self._inl
 
     @property
     def fq(self):
@@ -40,18 +62,18 @@ class FuncInfo(object):
         """Functions defined directly inside this one."""
         if self._nested is None:
             self._nested = {}
-            for sub in _walk_shallow(self.node.body):
+            for sub in _walk_shallow(self.raw.body):
                 if isinstance(sub, (ast.FunctionDef, ast.AsyncFunctionDef)):
                     self._nested[sub.name] = FuncInfo(
                         self.module, self.cls, sub, parent=self)
         return self._nested
 
     def params(self):
-        args = self.node.args
+        args = self.raw.args
         return [a.arg for a in args.posonlyargs + args.args]
 
     def decorators(self):
-        return list(self.node.decorator_list)
+        return list(self.raw.decorator_list)
 
     def __repr__(self):
         return '<Func %s>' % self.fq
@@ -229,6 +251,7 @@ class Index(object):
         self.modules = {}
         self._missing = set()
         self._all_loaded = False
+        self.inlining = os.environ.get('TREADMILL_SA_NO_INLINE') != '1'
 
     # -- loading -----------------------------------------------------------
     def _path_of(self, name):
@@ -257,6 +280,7 @@ class Index(object):
             return None
         rel = os.path.relpath(path, self.root)
         mod = ModuleInfo(name, path, rel, self.overlay.get(rel))
+        mod.index = self
         self.modules[name] = mod
         return mod
 
@@ -283,6 +307,7 @@ class Index(object):
                         rel = os.path.relpath(path, self.root)
                         self.modules[name] = ModuleInfo(
                             name, path, rel, self.overlay.get(rel))
+                        self.modules[name].index = self
                     except AnalysisError:
                         # a module outside the anchored set that does not
                         # parse under this interpreter is skipped but counted
@@ -407,6 +432,39 @@ class Index(object):
             raise AnalysisError('anchor vanished: %s in %s' %
                                 (qualname, mod.rel))
         return mod.functions[qualname]
+
+    def resolve_call(self, func, call):
+        """Resolve a call made inside ``func`` to a FuncInfo of the package:
+        self.m() through the MRO, super().m(), module.f(), plain f(),
+        nested functions."""
+        fexpr = call.func
+        if isinstance(fexpr, ast.Attribute) and isinstance(
+                fexpr.value, ast.Name) and fexpr.value.id == 'self' and \
+                func.cls is not None:
+            return self.find_method(func.cls, fexpr.attr)
+        if isinstance(fexpr, ast.Attribute) and isinstance(
+                fexpr.value, ast.Call) and \
+                dotted_text(fexpr.value.func) == 'super' and \
+                func.cls is not None:
+            return self.find_method(func.cls, fexpr.attr, skip_self=True)
+        if isinstance(fexpr, ast.Attribute) and isinstance(
+                fexpr.value, ast.Name) and func.cls is not None and \
+                fexpr.value.id == func.cls.name:
+            return self.find_method(func.cls, fexpr.attr)
+        res = self.resolve_expr(func.module, fexpr)
+        if res and res[0] == 'func':
+            return res[1]
+        if isinstance(fexpr, ast.Name):
+            cur = func
+            while cur is not None:
+                for sub in cur.raw.body:
+                    if isinstance(sub, (ast.FunctionDef,
+                                        ast.AsyncFunctionDef)) and \
+                            sub.name == fexpr.id:
+                        return FuncInfo(cur.module, cur.cls, sub,
+                                        parent=cur)
+                cur = cur.parent
+        return None
 
     def digests(self):
         return {m.rel: m.digest for m in self.modules.values()}
